@@ -172,7 +172,9 @@ func (s *shaper) val(v reflect.Value) {
 				s.sb.WriteString(" W=")
 				s.val(reflect.ValueOf(x.Word))
 				s.sb.WriteString(" H=")
-				if x.Hdoc == nil {
+				// an absent body and an empty one (e.g. a <<- body that was only the
+				// delimiter's tab indentation) are the same: no lines
+				if x.Hdoc == nil || len(normParts(x.Hdoc.Parts, x.Op == syntax.DashHdoc)) == 0 {
 					s.sb.WriteString("nil")
 				} else {
 					s.parts(x.Hdoc.Parts, x.Op == syntax.DashHdoc)
